@@ -62,7 +62,7 @@ def m_semtok(rid, uri):
 
 
 UNKNOWN_REQ = ["textDocument/hover", "textDocument/completion", "workspace/symbol", "ironplc/unknown"]
-UNKNOWN_NOTIF = ["textDocument/didSave", "workspace/didChangeConfiguration", "$/setTrace", "ironplc/unknownNotification"]
+UNKNOWN_NOTIF = ["textDocument/didSave", "workspace/didChangeConfiguration", "$/setTrace", "ironplc/unknownNotification", "$/cancelRequest"]
 
 
 def m_unkreq(rid, which=0):
@@ -71,8 +71,10 @@ def m_unkreq(rid, which=0):
     return {"jsonrpc": "2.0", "id": rid, "method": meth, "params": params}
 
 
-def m_unknotif(which=0):
+def m_unknotif(which=0, last_request=None):
     meth = UNKNOWN_NOTIF[which % len(UNKNOWN_NOTIF)]
+    if meth == "$/cancelRequest":
+        return {"jsonrpc": "2.0", "method": meth, "params": {"id": last_request if last_request is not None else 1}}
     params = {"textDocument": {"uri": URI[1]}} if meth.startswith("textDocument") else {"value": "off", "settings": {}}
     return {"jsonrpc": "2.0", "method": meth, "params": params}
 
@@ -125,7 +127,8 @@ def concretize(hist, texts, always_close=True):
         elif k == "unkreq":
             msgs.append(m_unkreq(m["id"], m["id"]))
         elif k == "unknotif":
-            msgs.append(m_unknotif(n))
+            reqs = [x["id"] for x in hist[:n - 1] if x["k"] in ("semtok", "unkreq")]
+            msgs.append(m_unknotif(m.get("w", n), reqs[-1] if reqs else None))
         elif k == "cresp":
             msgs.append(m_cresp(m["id"]))
         elif k == "shutdown":
